@@ -118,9 +118,20 @@ func ExecuteRequest(ctx context.Context, req *thunderpb.ExecuteRequest, gqlSchem
 		}, nil
 	}, time.Hour, false)
 
-	<-done
+	// A rerunner whose context is already cancelled never runs its computation,
+	// so also stop waiting when the request is cancelled. Stop waits for a run
+	// that is in progress.
+	select {
+	case <-done:
+	case <-ctx.Done():
+	}
 
 	rerunner.Stop()
+	select {
+	case <-done:
+	default:
+		return nil, ctx.Err()
+	}
 	return queryResponse, queryError
 }
 
